@@ -253,13 +253,32 @@ def check_relaxation(rep, prog):
             for c in rel:
                 by_key.setdefault(ex.key(c.args()[1]), []).append(c)
             for wk, group in by_key.items():
-                def atomize(leaf, group=group):
+                vis_kind = {}
+
+                def atomize(leaf, group=group, vis_kind=vis_kind):
                     s = resolve_bool(fn, leaf).strip_all()
                     # visited: std::get<k>(get(pred_map, w))
                     if s.k == 'CallExpr' and s.callee and s.callee['g'] == 'std::get' and s.args():
                         inner = s.args()[0].strip_all()
                         if inner.k == 'CallExpr' and inner.callee and inner.callee['g'] == 'boost::get' and len(inner.args()) == 2 and ex.key(inner.args()[1]) == wk:
+                            vis_kind['map'] = ex.var_of(inner.args()[0])
                             return ex.f_atom('visited')
+                    # visited: flags[index_map[w]] of a std::vector<bool> (the proxy reference is converted by a member call)
+                    if s.k == 'CXXMemberCallExpr' and s.object_arg() is not None and s.object_arg().strip_all().k == 'CXXOperatorCallExpr' and \
+                            s.object_arg().strip_all().op == '[]':
+                        s = s.object_arg().strip_all()
+                    if s.k == 'CXXOperatorCallExpr' and s.op == '[]' and len(s.c) == 3:
+                        tv = ex.var_of(s.c[1])
+                        tt = fn.prog.base_type(fn.prog.vars[tv]['ty']) if tv is not None else None
+                        targs = [a_ for a_ in ((tt or {}).get('targs') or []) if isinstance(a_, int)]
+                        if tt and (tt.get('rec') or '') == 'std::vector' and targs and (fn.prog.base_type(targs[0]) or {}).get('bool'):
+                            idx = s.c[2].strip_all()
+                            iv = ex.var_of(idx)
+                            if iv is not None and ex.unique_def(fn, iv) is not None:
+                                idx = ex.unique_def(fn, iv).strip_all()
+                            if idx.k == 'CXXOperatorCallExpr' and idx.op == '[]' and len(idx.c) == 3 and ex.key(idx.c[2]) == wk:
+                                vis_kind['flags'] = tv
+                                return ex.f_atom('visited')
                     # less(c, dist[w])
                     if s.k == 'CXXOperatorCallExpr' and s.op == '()' and len(s.c) == 4:
                         b = s.c[3].strip_all()
@@ -326,7 +345,36 @@ def check_relaxation(rep, prog):
                                       ' (the source itself)' if srcv else '', 'overwritten' if got else 'kept'),
                                   key='R02h|%s|contract' % fn.g)
                 else:
-                    rep.ok('R02h', group[0], fn, what, '%d store(s) of the label for this vertex' % len(group))
+                    # the vertex must be marked visited where its label is stored (not later, e.g. when it is dequeued): otherwise a second
+                    # neighbour of the same layer relabels it before it is popped
+                    unmarked = None
+                    if 'flags' in vis_kind:
+                        tv = vis_kind['flags']
+                        marks = []
+                        for d in fn.walk():
+                            if d.k in ('BinaryOperator', 'CXXOperatorCallExpr') and d.op == '=':
+                                ops = d.c if d.k == 'BinaryOperator' else d.c[1:]
+                                l = ops[0].strip_all() if ops else None
+                                if l is not None and l.k == 'CXXOperatorCallExpr' and l.op == '[]' and len(l.c) == 3 and ex.var_of(l.c[1]) == tv and \
+                                        len(ops) > 1 and ops[1].strip_all().cv == 1:
+                                    idx = l.c[2].strip_all()
+                                    iv = ex.var_of(idx)
+                                    if iv is not None and ex.unique_def(fn, iv) is not None:
+                                        idx = ex.unique_def(fn, iv).strip_all()
+                                    if idx.k == 'CXXOperatorCallExpr' and idx.op == '[]' and len(idx.c) == 3 and ex.key(idx.c[2]) == wk:
+                                        marks.append(d)
+                        dist_puts = [c for c in group if ex.var_of(c.args()[0]) != vis_kind.get('map')]
+                        for c in dist_puts:
+                            pc_ = cfg.pos_of(c)
+                            if not any(cfg.pos_of(mk) and cfg.pos_of(mk)[0] == pc_[0] for mk in marks):
+                                unmarked = c
+                    if unmarked is not None:
+                        rep.violation('R02h', unmarked, fn, what,
+                                      'the label is stored under `not visited`, but the visited flag of that vertex is not set where the label is stored (it is set '
+                                      'elsewhere, e.g. when the vertex is dequeued): a queued vertex is relabelled by a later neighbour and its hop distance grows',
+                                      key='R02h|%s|mark-late' % fn.g)
+                    else:
+                        rep.ok('R02h', group[0], fn, what, '%d store(s) of the label for this vertex' % len(group))
     return n
 
 
